@@ -394,7 +394,8 @@ def run(ctx, col: Collector):
 
     # ---------------------------------------------------------------- C02-compose
     def compose():
-        rd = idx.func('pydbml.renderer.dbml.default.renderer', 'DefaultDBMLRenderer.render_db')
+        from .common import expanded
+        rd = expanded(ctx, 'pydbml.renderer.dbml.default.renderer', 'DefaultDBMLRenderer.render_db', keep_extra=('render',))
         dbp = [a.arg for a in rd.node.args.args][1]
         reads = {x.attr for x in ast.walk(rd.node) if isinstance(x, ast.Attribute) and norm(x.value) == dbp}
         for c in ('project', 'enums', 'tables', 'refs', 'table_groups', 'sticky_notes'):
